@@ -368,6 +368,28 @@ def check_object(case, R):
             if again != snapshot or obs(cat, x) != before or str(x) != sb:
                 R.violation("accessor-exposes-internal-list:%s.%s" % (type(x).__name__ if not isinstance(x, pydsdl.CompositeType) else "CompositeType", name), "lists returned by accessors are copies", {**one, "accessor": name}, observed=repr(again)[:200], expected=repr(snapshot)[:200])
                 return
+    # whatever the QUERIES of a bit length set hand out (residue sets, expansions) is the caller's: scribbling on a mutable result
+    # must not change the object it was asked of
+    bls = x if cat == "bls" else (getattr(x, "bit_length_set", None) if cat == "type" and not isinstance(x, pydsdl.ServiceType) else None)
+    if bls is not None:
+        R.case([cat, d, "query-results"], nontrivial=True, sample=False)
+        results = []
+        for div in (1, 8, 32, 64):
+            results.append(("%% %d" % div, bls % div))
+        results.append(("pad_to_alignment(8)", bls.pad_to_alignment(8)))
+        for what, r in results:
+            for meth, args in (("clear", ()), ("add", (12345,)), ("append", (12345,)), ("update", ([7, 9],))):
+                f = getattr(r, meth, None)
+                if callable(f):
+                    try:
+                        f(*args)
+                    except Exception:  # noqa
+                        pass
+        twin = make(cat, d)
+        tb = twin if cat == "bls" else twin.bit_length_set
+        if obs(cat, x) != before or str(x) != sb or hash(x) != hb or not (x == twin) or sorted(bls % 32) != sorted(tb % 32) or bls.is_aligned_at(32) != tb.is_aligned_at(32) or not (bls == tb):
+            R.violation("query-result-is-a-live-view:" + cat, "model objects are immutable: modifying what a query handed out does not change the object", one, observed=[sorted(bls % 32), x == twin], expected=sorted(tb % 32))
+            return
     # immutability under use: after the object has been compared / hashed / queried, every nested type object must still equal
     # an independently built object of the same description (a shared cache mutated by a parent's query would show here)
     if cat == "type" and T.is_composite(d):
